@@ -127,6 +127,22 @@ def r_globals(ctx, prog):
                 continue
             seen.add(name)
             if name not in REVIEWED_GLOBALS:
+                # a value computed from a session (a parameter, a member, an allocation made for it) stored into a static that
+                # code reads back is, by construction, a channel between sessions; only constant stores leave the question open
+                dep = None
+                for f2 in u.functions.values():
+                    t2 = Terms(f2)
+                    for i2 in f2.all_insts():
+                        if i2.op == 'store':
+                            a2 = t2.term(i2.ops[1])
+                            r2 = addr_root(a2)
+                            if r2 == ('global', name) and t2.term(i2.ops[0])[0] != 'const':
+                                dep = i2
+                if dep is not None:
+                    ctx.fail(R, dep, 'new-static:%s' % name,
+                             'new writable static %s receives a session-dependent value (%s) in %s: state left by one session is '
+                             'seen by the next one' % (name, show(Terms(dep.fn).term(dep.ops[0]))[:60], dep.fn.name))
+                    continue
                 ctx.broken(R, 'new writable global/static %s in %s: whether sessions can influence each other through it cannot be '
                               'decided statically (review it and add it to the table)' % (name, u.name))
     for f in prog.all_functions:
@@ -273,6 +289,20 @@ def r_colfill(ctx, prog):
             r2 = f.reachable(s, stop=[hdr])
             if any(b2 in r2 for b2 in ib):
                 twice = True
+    # pairing: the left limit t of the choice list advances exactly when an entry of u[] has been consumed (replaced by u[t])
+    alloc_u = [c for c in f.calls() if c.callee in ('of_calloc', 'calloc')]
+    for au in alloc_u:
+        ut = ('call', au.callee, au.id)
+        repl = [i for i in f.all_insts() if i.op == 'store' and tt.term(i.ops[1])[0] == 'elem' and tt.term(i.ops[1])[1] == ut
+                and tt.term(i.ops[0])[0] in ('load', 'load@') and tt.term(i.ops[0])[1][0] == 'elem' and tt.term(i.ops[0])[1][1] == ut
+                and i.block.loop is not None and i.block.id in l2.blocks]
+        for rs in repl:
+            tterm = tt.term(rs.ops[0])[1][2]          # the index t
+            incs = [i for i in f.all_insts() if i.op == 'add' and const_of(i.ops[1]) == 1 and tt.term(i.ops[0]) == tterm]
+            okp = bool(incs) and all(i.block is rs.block for i in incs)
+            ctx.instance(R, okp, rs, 'colfill:choice-list-pairing',
+                         'the left limit of the choice list is advanced %s: it must advance exactly when an entry of the list has been '
+                         'consumed (replaced by u[t]), as in RFC 5170' % ('outside the branch that consumes an entry' if incs else 'never'))
     ctx.instance(R, must and not twice, ins[0], 'colfill:exactly-one',
                  'one iteration of the N1 loop can complete %s: a column would not get exactly N1 ones' %
                  ('without inserting' if not must else 'after inserting twice'))
@@ -579,8 +609,40 @@ def r_nullfeed(ctx, prog):
                 if x[0] == 'bin' and x[1] == 'and' and x[2][0] in ('load', 'load@') and x[2][1] == out:
                     okq = True
     ctx.instance(R, okq, c, 'nullfeed:guard', 'the self-submission is not conditional on the IS_LAST_SYMBOL_NULL answer being true')
-    role = any(_mentions_field(a, 'codec_type') for a in atoms_at(f, Terms(f), c.block))
-    ctx.instance(R, role, c, 'nullfeed:decoder-only', 'the self-submission must only happen for decoder instances')
+    role = any(_is_role_mask_test(a, 2) for a in atoms_at(f, Terms(f), c.block))
+    ctx.instance(R, role, c, 'nullfeed:decoder-only', 'the self-submission must happen for every instance that can decode, i.e. under '
+                 '(codec_type & OF_DECODER) != 0 (an equality test misses OF_ENCODER_AND_DECODER sessions, for which the query still '
+                 'answers true)')
+
+
+def _is_role_mask_test(a, mask):
+    if a[0] != 'cmp' or a[1] != 'ne' or a[3] != ('const', 0):
+        return False
+    t = a[2]
+    return t[0] == 'bin' and t[1] == 'and' and ('const', mask) in (t[2], t[3]) and \
+        any(is_field_load(x, 'codec_type', None) for x in (t[2], t[3]))
+
+
+def r_role_form(ctx, prog):
+    """Every test of the session role anywhere in the library is a mask test (codec_type & OF_ENCODER / OF_DECODER) != 0:
+    OF_ENCODER_AND_DECODER sessions must take both sides."""
+    R = 'R-ROLE-FORM'
+    ctx.rule(R, 'every branch on codec_type is a mask test against OF_ENCODER or OF_DECODER', floor=8)
+    from .ir import out_edges, cond_atoms
+    for f in prog.all_functions:
+        tt = Terms(f)
+        for b in f.blocks:
+            es = out_edges(b)
+            if len(es) < 2 or es[0][1] is None or es[0][1][0] != 'br':
+                continue
+            atoms = cond_atoms(tt, es[0][1][1], True)
+            for a in atoms:
+                if not _mentions_field(a, 'codec_type'):
+                    continue
+                ok = _is_role_mask_test(a, 1) or _is_role_mask_test(a, 2)
+                ctx.instance(R, ok, b.term(), '%s:role-test' % f.name,
+                             '%s tests the codec role with %s instead of a mask test: sessions created as OF_ENCODER_AND_DECODER '
+                             'are treated differently from what their role allows' % (f.name, show(a)[:80]))
 
 
 def _len_term(prog, tt, f):
